@@ -661,7 +661,10 @@ class EltoritoBootCatalog:
             self.state = self.EXPECTING_SECTION_HEADER_OR_DONE
         else:
             val = bytes(bytearray([valstr[0]]))
-            if val == b'\x00':
+            # A boot indicator of zero is a non-bootable Section Entry if the
+            # last Section Header still lacks entries, the end marker otherwise.
+            expecting_entry = bool(self.sections) and len(self.sections[-1].section_entries) < self.sections[-1].num_section_entries
+            if val == b'\x00' and not expecting_entry:
                 # An empty entry tells us we are done parsing El Torito.  Do
                 # some sanity checks.
                 last_section_index = len(self.sections) - 1
